@@ -508,6 +508,14 @@ CORPUS_INLINE = {
 }
 
 
+# files whose traversal is cut short by the recursion limit (refurb suppresses the RecursionError, issue #302) AFTER a diagnostic was
+# found far down and far right: whatever state survives the aborted traversal must not surface under another file's name
+for _terms in (240, 265, 290, 315):
+    CORPUS_INLINE[f"recursion_cut_{_terms}"] = (
+        "# filler\n" * 150 + "a_rather_long_name_so_that_the_column_is_large_0123456789 = int(0)\nw = " + " + ".join(["1"] * _terms) + "\nv = list()\n"
+    )
+
+
 # ============================================================================================
 # running refurb
 
